@@ -1028,12 +1028,24 @@ fn main() {
       let focus = extra.iter().find(|e| e.0 == "focus").map(|e| e.1.clone()).unwrap_or_else(|| "register".into());
       let workers: usize = extra.iter().find(|e| e.0 == "workers").and_then(|e| e.1.parse().ok()).unwrap_or(12).max(1);
       let exe = std::env::current_exe().expect("exe");
-      let per = (cases + workers - 1) / workers;
-      let kids: Vec<_> = (0..workers).filter(|w| w * per < cases).map(|w| {
-        std::process::Command::new(&exe).args(["genworker", &seed.to_string(), &tier, &focus, &(w * per).to_string(), &((w + 1) * per).min(cases).to_string()])
-          .stdout(std::process::Stdio::piped()).spawn().expect("spawn worker") }).collect();
+      // every dropped cache leaks its janitor/notifier threads until their process exits, so a worker
+      // process handles at most 300 cases; at most `workers` processes run at a time, output stays in case order
+      let chunk = ((cases + workers - 1) / workers).clamp(1, 300);
+      let ranges: Vec<(usize, usize)> = (0..cases).step_by(chunk).map(|lo| (lo, (lo + chunk).min(cases))).collect();
+      // workers write to files (a pipe would stall every worker but the one being read)
+      let dir = exe.ancestors().nth(4).map(|p| p.join("cacheh-tmp")).unwrap_or_else(std::env::temp_dir).join(format!("{}", std::process::id()));
+      std::fs::create_dir_all(&dir).expect("tmp dir");
+      let spawn = |i: usize, r: &(usize, usize)| { let f = std::fs::File::create(dir.join(format!("{i}.tr"))).expect("tmp file");
+        std::process::Command::new(&exe).args(["genworker", &seed.to_string(), &tier, &focus, &r.0.to_string(), &r.1.to_string()]).stdout(f).spawn().expect("spawn worker") };
       let mut bad = false;
-      for k in kids { let o = k.wait_with_output().expect("worker"); if !o.status.success() { bad = true; } print!("{}", String::from_utf8_lossy(&o.stdout)); }
+      let mut running: VecDeque<(usize, std::process::Child)> = VecDeque::new();
+      let mut next = 0usize;
+      while next < ranges.len() || !running.is_empty() {
+        while running.len() < workers && next < ranges.len() { running.push_back((next, spawn(next, &ranges[next]))); next += 1; }
+        if let Some((i, mut k)) = running.pop_front() { if !k.wait().expect("worker").success() { bad = true; }
+          let p = dir.join(format!("{i}.tr")); print!("{}", std::fs::read_to_string(&p).unwrap_or_default()); let _ = std::fs::remove_file(&p); }
+      }
+      let _ = std::fs::remove_dir(&dir);
       if bad { eprintln!("a worker process failed"); std::process::exit(3); }
     }
     Mode::Run { file } => {
